@@ -34,7 +34,8 @@ RULE = ('the real queue -> deque -> extract_epochs loop. All seven queue classes
         'request sizes, integer-typed fs; the caller overwriting every array pop_buffer returned; FIFO queue running dry inside a request '
         'and stimuli appended afterwards; pause exactly at / below the acquisition position, paused silence acquired and resume exactly '
         'at / after it, a second earlier pause while paused, three pause/resume pairs between two sends; acquisition sample and queue '
-        'clock beyond 2^24 and 2^25.')
+        'clock beyond 2^24 and 2^25. (5) long logs: 300-600 trials of 1-3 samples (delay 0-2) generated ahead of the acquisition in one or '
+        'a few requests, pause at an early time (several hundred logged trials cancelled at once), resume, everything acquired; five queue classes.')
 TRUSTED = ['harness/C06.py (the playback device: writes each pop_buffer result at the queue clock, truncates at round(t*fs) on pause; '
            'computes the sample numbers handed to the model with the float expressions of the code: round((t-T0)*fs) for pause/resume, '
            'round(delay*fs), round(duration*fs), round((epoch_size+poststim+prestim)*fs), round(buffer_size*fs)); harness/queuecore.py',
@@ -629,6 +630,12 @@ def _chunks(total, mode, rng, marks=()):
         for m in sorted(set(x for x in marks if 0 < x < total)) + [total]:
             out.append(m - pos)
             pos = m
+    elif mode == 'few':
+        left = total
+        while left > 0:
+            c = min(left, rng.choice([150, 400, 1000]))
+            out.append(c)
+            left -= c
     else:
         left = total
         while left > 0:
@@ -799,6 +806,31 @@ def cases(tier, rng):
 
     # (4) coverage audit: options of the queue, of the extractor and of the acquisition driver
     yield from _audit_cases(quick, rng)
+    # (5) long logs: hundreds of very short trials generated far ahead of the acquisition, then an early pause
+    for pol in (['fifo', 'inter_keep', 'inter_nokeep', 'blocked_random', 'grouped'] if quick else qc.POLICIES + qc.POLICIES):
+        fs = rng.choice(FS)
+        nst = rng.randint(1, 2)
+        per = rng.randint(300, 600) // nst
+        st = [{'kind': rng.choice(['array', 'gen']), 'len': rng.randint(1, 3), 'off': 0.0, 'explicit': False, 'trials': per,
+               'delay': rng.randint(0, 2), 'doff': rng.choice(OFFS[:3])} for _ in range(nst)]
+        for x in st:
+            if x['delay'] == 0:
+                x['doff'] = abs(x['doff'])
+        n = max(x['len'] for x in st)
+        c = {'pol': pol, 'gs': rng.randint(1, nst), 'seed': rng.randint(0, 40), 'fs': fs, 'D': rng.choice([0, 70000]),
+             'j': rng.choice([0, 3]), 'B': 0, 'stims': st, 'esize': [n, 0.0], 'post': [0, 0.0]}
+        span = sum(x['trials'] * (x['len'] + x['delay']) for x in st)
+        ahead = span - rng.randint(0, 20)                       # (almost) everything generated before the pause
+        t = rng.randint(4, 40)                                  # early pause: > 256 logged trials end after it
+        acq = c['j'] + rng.randint(0, t)
+        steps = [['pop', k] for k in _chunks(ahead, rng.choice(['one', 'few']), rng)]
+        steps += [['acq', acq], ['pause', [t, rng.choice([0.0, 0.3])]], ['pop', 2], ['resume', [t + rng.choice([0, 2, n + 1]), 0.0]]]
+        clock = c['j'] + steps[-1][1][0]
+        steps.append(['pop', span + 10])
+        left = clock + span + 10 - acq
+        for k in _chunks(left, rng.choice(['one', 'few']), rng):
+            steps.append(['acq', k])
+        yield dict(c, steps=steps)
 
 
 def _fifo_timeline(case):
